@@ -370,6 +370,7 @@ func TestC07(t *testing.T) {
 			kInt := fmt.Sprintf("int-%d-%d", R, round)
 			kFlt := fmt.Sprintf("flt-%d-%d", R, round)
 			kGp := fmt.Sprintf("gp-%d-%d", R, round)
+			kMix := fmt.Sprintf("mix-%d-%d", R, round) // Incr, Decr AND IncrByFloat (with fractions) on one key
 			// assignment of callers to entry points: all on one path, or spread
 			same := rng.Intn(4) == 0
 			base := rng.Intn(len(paths))
@@ -384,6 +385,10 @@ func TestC07(t *testing.T) {
 				for j := 0; j < calls; j++ {
 					x := rng.Intn(100)
 					switch {
+					case x < 10:
+						sc.Steps = append(sc.Steps, Step{Op: []string{"incr", "decr"}[rng.Intn(2)], Key: kMix, Delta: 1 + rng.Intn(5), Mixed: true})
+					case x < 18:
+						sc.Steps = append(sc.Steps, Step{Op: "incrf", Key: kMix, Delta: []int{512, 1024, 2048, 256, 1536}[rng.Intn(5)]})
 					case x < 35:
 						sc.Steps = append(sc.Steps, Step{Op: "incr", Key: kInt, Delta: 1 + rng.Intn(5)})
 					case x < 50:
@@ -402,12 +407,26 @@ func TestC07(t *testing.T) {
 				sched.Install(int64(envInt("VERIF_SEED", 1))).Delays(sched.Rule{Prefix: "atomic.read", Prob: 0.5, Max: 3 * time.Millisecond},
 					sched.Rule{Prefix: "put.", Prob: 0.3, Max: time.Millisecond})
 			}
+			if round%3 == 2 {
+				// every third round begins with an Incr on a key that carries a short expiry, on every member (the expiry is
+				// kept by Incr - and belongs to that key alone), and ends after that expiry would have passed
+				kT := fmt.Sprintf("ttl-%d-%d", R, round)
+				var pre []Script
+				for pi := 0; pi < 3; pi++ {
+					pre = append(pre, Script{Client: fmt.Sprintf("t%d", pi), Path: paths[pi], Steps: []Step{{Op: "incr", Key: fmt.Sprintf("%s-%d", kT, pi), Delta: 1},
+						{Op: "expire", Key: fmt.Sprintf("%s-%d", kT, pi), D: 70 * time.Millisecond, Ms: true}, {Op: "incr", Key: fmt.Sprintf("%s-%d", kT, pi), Delta: 1}}})
+				}
+				rec.Run("c07", pre, nil)
+			}
 			rec.Run("c07", scripts, yielder(rng))
 			sched.Install(0).Delays()
+			if round%3 == 2 {
+				time.Sleep(150 * time.Millisecond)
+			}
 			// the final value, read through one more path
 			fin := paths[rng.Intn(len(paths))]
 			rec.Run("c07", []Script{{Client: "fin", Path: fin, Steps: []Step{
-				{Op: "get", Key: kInt, Num: true}, {Op: "get", Key: kFlt, Float: true}, {Op: "get", Key: kGp}}}}, nil)
+				{Op: "get", Key: kInt, Num: true}, {Op: "get", Key: kFlt, Float: true}, {Op: "get", Key: kGp}, {Op: "get", Key: kMix, Float: true}}}}, nil)
 			record(w, rec, &seq, sum, seen, trace.Ev{"cfg": cfg, "same_path": same}, func(h *History) bool { return h.Overlap })
 		}
 		for _, p := range paths {
